@@ -280,7 +280,8 @@ contract Service.runtimeInfo
 contract "github.com/gin-gonic/gin.Context.BindJSON"
   ensures whentype(obj, "**tkestack.io/kvass/pkg/shard.UpdateTargetsRequest",
        (result == nil ==> pointee(obj) != nil && wfTargets(pointee(obj).Targets) && uniqueHashes(pointee(obj).Targets)))
-  modifies pointee(obj), tkestack.io/kvass/pkg/shard.UpdateTargetsRequest.*
+  ensures whentype(obj, "**tkestack.io/kvass/pkg/shard.UpdateConfigRequest", (result == nil ==> pointee(obj) != nil))
+  modifies pointee(obj), tkestack.io/kvass/pkg/shard.UpdateTargetsRequest.*, tkestack.io/kvass/pkg/shard.UpdateConfigRequest.*
 
 ghost global gUpdateCalls int
 ghost global gUpdateGiven ref[tkestack.io/kvass/pkg/shard.UpdateTargetsRequest]
@@ -299,5 +300,35 @@ contract Service.updateTargets
   modifies TargetsManager.targets at {s.targetManager}, target.ScrapeStatus.TargetState, target.ScrapeStatus.ScrapeTimes, target.ScrapeStatus.* at {},
            tkestack.io/kvass/pkg/scrape.StatisticsSeriesResult.* at {}, mapof(tkestack.io/kvass/pkg/scrape.StatisticsSeriesResult.MetricsTotal) at {}, mapof(TargetsInfo.Status) at {},
            net/url.URL.* at {}, gWJob, gWIdx, gFileContent, gFileComplete, gLastMarshal, gUpdateCalls, gUpdateGiven,
-           tkestack.io/kvass/pkg/api.Result.* at {}, tkestack.io/kvass/pkg/shard.UpdateTargetsRequest.*
+           tkestack.io/kvass/pkg/api.Result.* at {}, tkestack.io/kvass/pkg/shard.UpdateTargetsRequest.*, tkestack.io/kvass/pkg/shard.UpdateConfigRequest.*
+
+// ---------- the configuration handlers (C08 / C16: config push; C13: administrative stop) ----------
+// "a reachable shard with a different hash is first sent the current raw configuration and takes part again only once it reports
+// the matching hash": the push is acknowledged only when the configuration manager loaded it in this very request, and never
+// when the sidecar is run from a configuration file
+ghost global gReloadCalls int
+on call prom.ConfigManager.ReloadFromRaw(c, data) in Service.updateConfig
+   do gReloadCalls = gReloadCalls + 1
+contract Service.updateConfig
+  requires s != nil && s.cfgManager != nil && s.cfgManager.currentConfig != nil && s.lg != nil
+  requires forall k in 0..len(s.cfgManager.callbacks) :: s.cfgManager.callbacks[k] != nil
+  ensures result != nil
+  ensures[C08,C16] @raw_update_is_refused_when_run_from_a_file s.configFile != "" ==> (result.Status != "success" && gReloadCalls == old(gReloadCalls) && s.cfgManager.currentConfig == old(s.cfgManager.currentConfig))
+  ensures[C08,C16] @only_a_loaded_configuration_is_acknowledged result.Status == "success" ==> gReloadCalls == old(gReloadCalls) + 1
+  ensures[C08,C16] @nothing_is_published_without_a_reload gReloadCalls == old(gReloadCalls) ==> s.cfgManager.currentConfig == old(s.cfgManager.currentConfig)
+  modifies tkestack.io/kvass/pkg/prom.ConfigManager.currentConfig at {s.cfgManager}, tkestack.io/kvass/pkg/prom.ConfigInfo.* at {}, github.com/prometheus/prometheus/config.Config.* at {},
+           gLastHash, gHashed, gNotified, gReloadCalls, tkestack.io/kvass/pkg/api.Result.* at {}, tkestack.io/kvass/pkg/shard.UpdateConfigRequest.*, tkestack.io/kvass/pkg/shard.UpdateTargetsRequest.*
+
+// C13 "or scraping administratively stopped": the stop reason is acknowledged only when the configuration manager took it over
+ghost global gExtraCalls int
+on call prom.ConfigManager.UpdateExtraConfig(c, cfg) in Service.updateExtraConfig
+   do gExtraCalls = gExtraCalls + 1
+contract Service.updateExtraConfig
+  requires s != nil && s.cfgManager != nil && s.cfgManager.currentConfig != nil && s.cfgManager.currentConfig.ExtraConfig != nil
+  requires forall k in 0..len(s.cfgManager.callbacks) :: s.cfgManager.callbacks[k] != nil
+  ensures result != nil
+  ensures[C13] @only_an_applied_stop_reason_is_acknowledged result.Status == "success" ==> gExtraCalls == old(gExtraCalls) + 1
+  ensures[C13,C16] @extra_config_does_not_touch_the_hash s.cfgManager.currentConfig == old(s.cfgManager.currentConfig) && s.cfgManager.currentConfig.ConfigHash == old(s.cfgManager.currentConfig.ConfigHash)
+  modifies tkestack.io/kvass/pkg/prom.ConfigInfo.ExtraConfig at {s.cfgManager.currentConfig}, tkestack.io/kvass/pkg/prom.ExtraConfig.* at {}, gExtraCalls, tkestack.io/kvass/pkg/api.Result.* at {},
+           tkestack.io/kvass/pkg/shard.UpdateTargetsRequest.*, tkestack.io/kvass/pkg/shard.UpdateConfigRequest.*
 @*/
